@@ -79,8 +79,9 @@ def packed_model(cols, layout, pos, schema, note):
     if 'pkindex' in layout:
         idx.append(A.index([body[0]['name'], body[1]['name']], pk=True))
     t = A.table('t', allc, schema=schema, note=note, indexes=idx)
+    # the second table repeats the first one's note text (so a shared Note object, see builder.share_notes, would show)
     other = A.table('other', [A.col('id', pk=True), A.col('v', 'text', note='other v')], schema='s' if schema == 'public' else 'public',
-                    indexes=[A.index(['v'], name='ov')])
+                    indexes=[A.index(['v'], name='ov')], note=note)
     return A.model(tables=[t, other], enums=enums())
 
 
@@ -115,7 +116,9 @@ def check_db(p, m, route, case, label):
     from pydbml import PyDBML
     try:
         if route == 'api':
-            db = builder.build(m)
+            # every second database is built with one Note object per distinct text, passed to every element that bears that text
+            p['extra']['api_builds'] = p['extra'].get('api_builds', 0) + 1
+            db = builder.build(m, share_notes=bool(p['extra']['api_builds'] % 2))
         else:
             db = PyDBML(writer.write(m))
     except Exception as e:
